@@ -168,7 +168,7 @@ def run(ctx):
         # well-formed years: the whole accepted range 1600 .. next year, both ends included
         year = rng.choice([None, "1999", "2007", "1600", "1601", str(this_year), str(this_year + 1)])
         paren = rng.choice([None, None, "per curiam", "holding that (a) applies"])
-        form = rng.choice(["full", "full", "short", "supra", "id", "journal"])
+        form = rng.choice(["full", "full", "short", "supra", "id", "journal", "parallel"])
         pre = rng.choice(["See ", "In ", ""])
         term = rng.choice([".", ";", ""])
         if form == "full":
@@ -188,6 +188,26 @@ def run(ctx):
                           ("full span start", c.full_span()[0] == text.index(pl) + len(pl) - len(c.metadata.plaintiff or "")),
                           ("full span end", c.full_span()[1] >= s0 + len(core_) and text[max(c.full_span()[1], 0):].strip(" .;") == "" or
                            text[c.full_span()[1]:].lstrip().startswith(tuple(".;")) or c.full_span()[1] == len(text))]
+        elif form == "parallel":
+            # full case citation with a parallel cite, optionally followed later by a name-pincite mention of a party
+            R2 = rng.choice([x for x in SAFE_REPS if x != R] or SAFE_REPS)
+            core_, core2 = f"{vol} {R} {page}", f"{vol + 1} {R2} {page + 7}"
+            later = rng.choice(["", f" Later, {df} at {page + 2}.", f" See {pl} at {page + 1}, supra."])
+            text = f"{pre}{pl} v. {df}, {core_}, {core2}" + (f" ({year})" if year else "") + "." + later
+            cs = cites(text, FULL)
+            ok = len(cs) == 2
+            c = cs[1] if ok else None
+            s0 = text.index(core2)
+            checks = []
+            if ok:
+                a = cs[0]
+                checks = [("first span", a.span() == (text.index(core_), text.index(core_) + len(core_))),
+                          ("span", c.span() == (s0, s0 + len(core2))),
+                          ("defendant of the first citation", a.metadata.defendant == df),
+                          ("defendant", c.metadata.defendant == df),
+                          ("plaintiff suffix", bool(c.metadata.plaintiff) and pl.endswith(c.metadata.plaintiff)),
+                          ("year", c.metadata.year == year and a.metadata.year == year),
+                          ("numeric year", c.year == (int(year) if year else None))]
         elif form == "short":
             p0 = str(page + 2)
             core_ = f"{vol} {R} at {p0}"
